@@ -94,6 +94,7 @@ func wellFormedValidationError(e *gqlerror.Error, src *ast.Source) {
 	if e == nil {
 		return
 	}
+	verifrt.Cover("C20.validation-error")
 	verifrt.Assert(len(e.Message) > 0, "C20.message-nonempty")
 	verifrt.Assert(e.Rule != "", "C20.rule-named")
 	verifrt.Assert(len(e.Locations) >= 1, "C20.has-location")
